@@ -882,6 +882,109 @@ Definition parse_http_date (s : str) : option (N * N * N * N * N * N) :=
   | _ => None
   end.
 
+(* ------------------------------------------------------------------ parse_date on the three HTTP date shapes *)
+(* http.parse_date = email.utils.parsedate_to_datetime, modelled on IMF-fixdate (with any zone), RFC 850 and asctime texts;
+   anything else is outside this model (None here does not distinguish it from a rejected date: the harness feeds texts of
+   the three shapes only).  Result: the six fields as written and the zone offset in minutes. *)
+
+(* str.split() on blanks *)
+Fixpoint words_from (s : str) (cur : str) : list str :=
+  match s with
+  | [] => match cur with [] => [] | _ => [cur] end
+  | c :: r => if c =? SP then match cur with [] => words_from r [] | _ => cur :: words_from r [] end
+              else words_from r (cur ++ [c])
+  end.
+Definition words (s : str) : list str := words_from s [].
+
+Definition small_num (ds : str) : option N :=
+  match ds with
+  | [] => None
+  | _ => if (N.of_nat (length ds) <=? 4) && forallb is_digit ds
+         then match uint_of_digits ds with Some u => Some (N.of_uint u) | None => None end else None
+  end.
+
+(* email._parseaddr._timezones (hhmm, sign) *)
+Definition zone_names : list (str * (bool * N)) :=
+  [([85; 84], (false, 0)); ([85; 84; 67], (false, 0)); ([71; 77; 84], (false, 0)); ([90], (false, 0));
+   ([65; 83; 84], (true, 400)); ([65; 68; 84], (true, 300)); ([69; 83; 84], (true, 500)); ([69; 68; 84], (true, 400));
+   ([67; 83; 84], (true, 600)); ([67; 68; 84], (true, 500)); ([77; 83; 84], (true, 700)); ([77; 68; 84], (true, 600));
+   ([80; 83; 84], (true, 800)); ([80; 68; 84], (true, 700))].
+
+Definition hhmm_minutes (neg : bool) (v : N) : Z :=
+  let m := Z.of_N ((v / 100) * 60 + v mod 100) in if neg then (- m)%Z else m.
+
+Definition all_digits_num (ds : str) : option N :=
+  match ds with
+  | [] => None
+  | _ => if (N.of_nat (length ds) <=? 6) && forallb is_digit ds
+         then match uint_of_digits ds with Some u => Some (N.of_uint u) | None => None end else None
+  end.
+
+(* the zone word -> offset in minutes: a name of the table, int(word) read as hhmm (sign optional), and UTC for an absent
+   or unknown word (the library then returns a naive datetime, which parse_date takes as UTC) *)
+Definition zone_minutes (z : str) : option Z :=
+  match z with
+  | [] => Some 0%Z
+  | c :: r =>
+    match dict_get (map ascii_upper z) zone_names with
+    | Some (neg, v) => Some (hhmm_minutes neg v)
+    | None =>
+      if (c =? 43) || (c =? DASH) then
+        match all_digits_num r with Some v => Some (hhmm_minutes (c =? DASH) v) | None => Some 0%Z end
+      else match all_digits_num z with Some v => Some (hhmm_minutes false v) | None => Some 0%Z end
+    end
+  end.
+
+Definition is_leap (y : N) : bool := (y mod 4 =? 0) && (negb (y mod 100 =? 0) || (y mod 400 =? 0)).
+Definition days_in_month (y m : N) : N :=
+  if m =? 2 then (if is_leap y then 29 else 28)
+  else if (m =? 4) || (m =? 6) || (m =? 9) || (m =? 11) then 30 else 31.
+
+(* datetime(y, mo, d, h, mi, s, tzinfo=timezone(timedelta(minutes=off))) accepts the values *)
+Definition datetime_ok (d mo y h mi s : N) (off : Z) : bool :=
+  (1 <=? y) && (y <=? 9999) && (1 <=? mo) && (mo <=? 12) && (1 <=? d) && (d <=? days_in_month y mo)
+  && (h <? 24) && (mi <? 60) && (s <? 60) && (-1440 <? off)%Z && (off <? 1440)%Z.
+
+Definition pivot_year (y : N) : N := if y <? 100 then (if 68 <? y then y + 1900 else y + 2000) else y.
+
+Definition parse_hms (t : str) : option (N * N * N) :=
+  match t with
+  | [h1; h2; c1; m1; m2; c2; s1; s2] =>
+    if (c1 =? COLON) && (c2 =? COLON) then
+      match num2 h1 h2, num2 m1 m2, num2 s1 s2 with Some h, Some m, Some s => Some (h, m, s) | _, _, _ => None end
+    else None
+  | _ => None
+  end.
+
+Definition assemble (dd mon yy tm zone : str) : option (N * N * N * N * N * N * Z) :=
+  match small_num dd, month_index mon mon_names 1, small_num yy, parse_hms tm, zone_minutes zone with
+  | Some d, Some mo, Some y0, Some (h, mi, s), Some off =>
+    let y := pivot_year y0 in
+    if (N.of_nat (length mon) =? 3) && datetime_ok d mo y h mi s off
+    then Some (d, mo, y, h, mi, s, off) else None
+  | _, _, _, _, _ => None
+  end.
+
+Definition ends_with_comma (w : str) : bool := last_is COMMA w.
+
+Definition parse_date_shapes (s : str) : option (N * N * N * N * N * N * Z) :=
+  match parse_http_date s with
+  | Some (d, mo, y, h, mi, se) => if datetime_ok d mo (pivot_year y) h mi se 0 then Some (d, mo, pivot_year y, h, mi, se, 0%Z) else None
+  | None =>
+    match words s with
+    | [wd; dd; mon; yy; tm; zone] => if ends_with_comma wd then assemble dd mon yy tm zone else None          (* IMF, any zone *)
+    | [wd; dd; mon; yy; tm] =>
+      if ends_with_comma wd then assemble dd mon yy tm []                                                    (* IMF without zone *)
+      else if str_mem (lower wd) (map lower wday_names) then assemble mon dd tm yy []                        (* asctime *)
+      else assemble wd dd mon yy tm                                                                          (* IMF without weekday *)
+    | [wd; dmy; tm; zone] =>                                                                                 (* RFC 850 *)
+      if ends_with_comma wd then
+        match split_on DASH dmy with [dd; mon; yy] => assemble dd mon yy tm zone | _ => None end
+      else None
+    | _ => None
+    end
+  end.
+
 (* ================================================================== driver helpers (decimal text <-> Z without OCaml ints) *)
 Definition Z_of_text (s : str) : Z :=
   match s with
